@@ -2,7 +2,7 @@
 from ..core import q
 from ..core.q import expect_term, site, peel, ANY
 from ..core.ir import walk, strip, walk_with_parents
-from ..core.norm import Norm, show, cshort, as_for_loop
+from ..core.norm import _diverges, Norm, show, cshort, as_for_loop
 from .. import k10, panics, k13, guards as GD
 from .. import gen_rules as G
 
@@ -59,9 +59,21 @@ def check(ctx):
     ctx.count("panic-capable sites in reach", len(inv), 42)
     # the prelude catch-all is discharged by K1 (C10.5)
     missing = G.prelude_table(ctx, "C10.5", only_panic_discharge=True)
+    # which site that is: the only panic in the one-segment arm, whose value (helpers looked through) is the table lookup diverging exactly on a miss
+    miss_only = False
+    a = G.prelude_fn(ctx, "C10.5", outer=True)
+    if a is not None:
+        t = G._norm(ctx, a[0]).term(a[0]["body"])
+        pm = t[3].get("path") if t[0] == "struct" and t[3] else None
+        one = [b for p, _g, b in pm[2] if p == "[$]"] if pm is not None and pm[0] == "match" else []
+        if len(one) == 1 and one[0][0] == "match":
+            div = [p for p, _g, b in one[0][2] if _diverges(b)]
+            miss_only = div in (["_"], ["$"]) and all(p.startswith("'") for p, _g, b in one[0][2] if not _diverges(b))
+    in_one_segment_arm = [s for s in inv if s.kind == "panic-macro" and cshort(s.owner) == "TypePathType::from_type_def_path" and s.node is not None
+                          and "[$]" in panics.arm_chain(s.fn, s.node)]
     rest = []
     for s in inv:
-        if s.kind == "panic-macro" and cshort(s.owner) == "TypePathType::from_type_def_path" and s.node is not None and panics.arm_context(s.fn, s.node) == "arm:$":
+        if miss_only and len(in_one_segment_arm) == 1 and s is in_one_segment_arm[0]:
             ctx.expect(missing == [], "C10.5", "panic-site/prelude-catch-all", s.sp,
                        "`Unknown prelude type` is unreachable: the table covers every single-segment path scale-info emits (K1 inclusion holds)",
                        "the catch-all panic is reachable for the scale-info prelude names " + str(missing))
